@@ -167,6 +167,12 @@ func checkConcurrentFailureReports(p *core.Program, r *core.Report) {
 			if isNilCmp && isErrorType(x.Type()) {
 				continue
 			}
+			// or: "these peers were chosen by the algorithm" - a flag of forward that is set where SenderForBundle
+			// is consulted and nowhere else (a failed direct delivery, about which the algorithm was not asked and
+			// for which it has booked nothing, is not reported to it)
+			if cd.True && isChosenByAlgorithmFlag(fwdFn, f, cd.V) {
+				continue
+			}
 			okG = false
 			extra = append(extra, valStr(cd.V))
 		}
@@ -684,6 +690,7 @@ func checkPerPeerGoroutines(p *core.Program, r *core.Report) {
 
 	checkConstraintsPersisted(p, r)
 	checkFragmentIdentity(p, r)
+	checkServedAfterSent(p, r)
 	// a reservation that is never released (released under another key) shuts the bundle out of every later retry
 	checkDispatchExclusive(p, r)
 	checkPropertiesPersisted(p, r)
@@ -879,4 +886,88 @@ func deleteAfterwardsSound(phi *ssa.Phi) bool {
 		return false
 	}
 	return fromAlgo
+}
+
+
+// isChosenByAlgorithmFlag: v (in closure cl of forward) is the load of a captured boolean of forward whose stores are
+// `false` or a `true` placed in the very block that invokes Algorithm.SenderForBundle.
+func isChosenByAlgorithmFlag(fwd, cl *ssa.Function, v ssa.Value) bool {
+	ld, ok := v.(*ssa.UnOp)
+	if !ok || ld.Op != token.MUL {
+		return false
+	}
+	fv, ok := ld.X.(*ssa.FreeVar)
+	if !ok {
+		return false
+	}
+	var cell *ssa.Alloc
+	core.EachInstr(fwd, func(in ssa.Instruction) {
+		if a, ok := in.(*ssa.Alloc); ok && core.FreeVarBoundTo(fwd, cl, fv, a) {
+			cell = a
+		}
+	})
+	if cell == nil {
+		return false
+	}
+	nTrue := 0
+	for _, ref := range *cell.Referrers() {
+		st, ok := ref.(*ssa.Store)
+		if !ok || st.Addr != ssa.Value(cell) {
+			continue
+		}
+		if core.IsBoolConst(st.Val, false) {
+			continue
+		}
+		if !core.IsBoolConst(st.Val, true) {
+			return false
+		}
+		consulted := false
+		for _, in := range st.Block().Instrs {
+			if c, ok := in.(*ssa.Call); ok && c.Common().IsInvoke() && c.Common().Method.Name() == "SenderForBundle" {
+				consulted = true
+			}
+		}
+		if !consulted {
+			return false
+		}
+		nTrue++
+	}
+	return nTrue > 0
+}
+
+// checkServedAfterSent - necessary for "to every newly connected peer that does not have it yet ... across node
+// restarts": epidemic, PRoPHET and DTLSR write a peer into the bundle's persistent sent list when they SELECT it; only
+// a failure report of the same process takes it out again. A node that is shut down while a transmission is in flight
+// (a TCPCLv4 Send waits up to 10 s for its acknowledgement) restarts with the peer recorded as served although nothing
+// reached it. What must exist: the algorithm learns of a successful transmission (an Algorithm method invoked on the
+// Send()==nil edge of forward), so that "served" can be recorded then.
+func checkServedAfterSent(p *core.Program, r *core.Report) {
+	fwd := p.Func(routingPkg, "Core", "forward")
+	told := false
+	nSend := 0
+	core.EachInstrDeep(fwd, func(f *ssa.Function, in ssa.Instruction) {
+		c, ok := in.(*ssa.Call)
+		if !ok || !c.Common().IsInvoke() {
+			return
+		}
+		if c.Common().Method.Name() == "Send" {
+			nSend++
+			return
+		}
+		if !core.TypeIs(c.Common().Value.Type(), routingPkg, "Algorithm") || c.Common().Method.Name() == "ReportFailure" {
+			return
+		}
+		for _, cd := range core.DominatingConds(in.Block()) {
+			x, isNil, ok := core.NilCmp(cd)
+			if !ok || !isNil || !isErrorType(x.Type()) {
+				continue
+			}
+			if sc, isCall := x.(*ssa.Call); isCall && sc.Common().IsInvoke() && sc.Common().Method.Name() == "Send" {
+				told = true
+			}
+		}
+	})
+	r.Min("Send invocations in forward", 1)
+	r.Count("Send invocations in forward", nSend)
+	r.Check(told, "served-after-sent/"+fname(fwd)+"/success-reaches-the-algorithm", "the routing algorithm is told when a transmission it selected has succeeded, so that a peer is recorded as served by a transmission and not by its selection", p.Pos(fwd.Pos()), "", "forward invokes the algorithm only to select (SenderForBundle, which persists the peer in routing/<algo>/sent) and on failure (ReportFailure): a shutdown while the Send is in flight leaves the peer recorded as served, after the restart the bundle is never offered to it")
 }
